@@ -181,25 +181,56 @@ def make_script(g, rng, layout_idx=None, order=None):
     for (i, j) in g["refs"]:
         succ[i].append(j)
     imports = {m: [] for m in range(nmod)}       # module-level import lines
-    imported = {m: set() for m in range(nmod)}
+    imported = {m: {} for m in range(nmod)}       # module -> imported identifier -> module it comes from
     styles_used = set()
+    # Identifiers are a rendering choice.  naming = unique: C<i> / f<i>; shared: items of DIFFERENT modules may
+    # have the same identifier (unique only inside a module), every reference still designates the intended
+    # item (plain inside its module, by path or a non-clashing import from elsewhere).
+    naming = "shared" if nmod > 1 and rng.random() < 0.6 else "unique"
+    styles_used.add("naming:" + naming)
+    names = {}
+    if naming == "unique":
+        names = {i: item_name(g, i) for i in range(1, n + 1)}
+    else:
+        used = {m: set() for m in range(nmod)}
+        for i in rng.sample(range(1, n + 1), n):
+            pool = ["KA", "KB", "KC", "KD", "KE", "KF", "KG", "KH", "KI", "KJ"] if g["kind"][i - 1] == "c" else \
+                   ["ga", "gb", "gc", "gd", "ge", "gf", "gg", "gh", "gi", "gj"]
+            free = [x for x in pool if x not in used[home[i]]]
+            names[i] = rng.choice(free[:2])
+            used[home[i]].add(names[i])
+    declared = {m: {names[i] for i in names if home[i] == m} for m in range(nmod)}
+    # same identifier at both ends of a dependency chain through one other item, in different modules
+    for (a, y) in g["refs"]:
+        for (y2, b) in g["refs"]:
+            if y2 == y and a != b and y not in (a, b) and names[a] == names[b] and home[a] != home[b]:
+                kinds = g["kind"][a - 1] + g["kind"][y - 1] + g["kind"][b - 1]
+                styles_used.add("samename:" + {"ccc": "const-const-const", "cfc": "const-fn-const",
+                                               "fcf": "fn-const-fn", "fff": "fn-fn-fn"}[kinds])
 
     def mention(m, j, call_arg):
         """expression of value `item j`, written inside module index m"""
         a, b = layout[m], layout[home[j]]
-        name = item_name(g, j)
+        name = names[j]
         local_import = None
         if home[j] == m:
             how = rng.choice(["plain", "plain", "plain", "abs"])
         else:
             how = rng.choice(["abs", "rel", "import_top", "import_local"])
+            # an import must not clash with a declaration of this module or with another import
+            if how in ("import_top", "import_local") and name in declared[m]:
+                how = rng.choice(["abs", "rel"])
+            if how == "import_top" and imported[m].get(name, home[j]) != home[j]:
+                how = rng.choice(["abs", "rel"])
+            if how == "import_local" and name in imported[m] and imported[m][name] != home[j]:
+                how = rng.choice(["abs", "rel"])
         if how == "plain":
             path = name
         elif how in ("abs", "rel"):
             path = qual(a, b, name, how)
         elif how == "import_top":
             if name not in imported[m]:
-                imported[m].add(name)
+                imported[m][name] = home[j]
                 imports[m].append("import %s;" % qual(a, b, name, rng.choice(["abs", "rel"])))
             path = name
         else:
@@ -277,7 +308,7 @@ def make_script(g, rng, layout_idx=None, order=None):
     decls = {m: [] for m in range(nmod)}
     for i in order:
         m = home[i]
-        name = item_name(g, i)
+        name = names[i]
         if g["kind"][i - 1] == "c":
             ts = terms(i, False)
             s = " + ".join(ts) if ts else "0"
@@ -318,7 +349,7 @@ def make_script(g, rng, layout_idx=None, order=None):
         watched = observe == "all" or (observe == "some" and rng.random() < 0.5)
         if g["kind"][i - 1] == "c":
             m = rng.randrange(nmod)
-            path = item_name(g, i) if m == home[i] else qual(layout[m], layout[home[i]], item_name(g, i), rng.choice(["abs", "rel"]))
+            path = names[i] if m == home[i] else qual(layout[m], layout[home[i]], names[i], rng.choice(["abs", "rel"]))
             if watched:
                 gname = "get_c%d" % i
                 decls[m].insert(rng.randrange(len(decls[m]) + 1), "fn %s() -> i32 { %s }" % (gname, path))
@@ -336,7 +367,7 @@ def make_script(g, rng, layout_idx=None, order=None):
                 elif h == "if_false":
                     decls[m].insert(rng.randrange(len(decls[m]) + 1), "fn never_c%d() -> i32 { if false { %s } else { 0 } }" % (i, path))
         elif watched:
-            calls.append({"id": i, "name": ".".join(layout[home[i]] + [item_name(g, i)]), "arg": FUEL})
+            calls.append({"id": i, "name": ".".join(layout[home[i]] + [names[i]]), "arg": FUEL})
     # families of constants that nothing live reads (classification only, for the vacuity guard)
     called = {c["id"] for c in calls}
     readers = {i: {a for (a, b) in g["refs"] if b == i} for i in range(1, n + 1)}
@@ -683,7 +714,8 @@ def run_body(tier, ev, verd):
             for (lay, order) in variants:
                 hc, st = make_script(g, rng, lay, order)
                 if c["verdict"] != "ok":
-                    st = {x for x in st if not x.startswith("unread:")}     # nothing is evaluated there
+                    # nothing is evaluated there: does not count for these families
+                    st = {x for x in st if not x.startswith(("unread:", "samename:"))}
                 styles |= st
                 cases.append((c, hc))
         nscripts += len(cases)
@@ -738,6 +770,9 @@ def run_body(tier, ev, verd):
             want_styles.add("use:fn:" + f)
     want_styles |= {"use:ctx:" + f for f in STR_FORMS}
     # constants nothing (live) reads must occur: they still have to be evaluated exactly once
+    # items of different modules sharing an identifier, in particular around a dependency chain
+    want_styles |= {"naming:unique", "naming:shared", "samename:const-const-const", "samename:const-fn-const",
+                    "samename:fn-const-fn"}
     want_styles |= {"observe:all", "observe:some", "observe:none", "unread:constant", "unread:chain",
                     "unread:unreachable-code-only", "unread:uncalled-function-only"}
     if want_styles - styles:
